@@ -13,6 +13,7 @@ C01 oracle: every object reached from a joint J by any sequence / grouping of co
 evaluates, at the remaining variables, to twin(J).logd(full assignment); invalid evaluations must
 raise (accepted-invalid), valid conditioning calls must yield an object (refused-valid).
 """
+import os
 import numpy as np
 
 from sim import core, graphs
@@ -95,7 +96,7 @@ class ObjRun:
         self.G = graphs.build(self.sc["graph"], hook=self.hook)
         self.vals = self.G["vals"]
         # a second admissible value per variable: siblings conditioned on DIFFERENT values of the same variable
-        self.vals_alt = {n: (np.asarray(v, float) * 1.7 + (0.0 if n in ("s", "d", "b", "t", "prec") or np.all(np.asarray(v) > 0) else 0.3))
+        self.vals_alt = {n: (np.asarray(v, float) * 1.7 + (0.0 if n in ("s", "d", "b", "t", "prec", "m", "v", "h") or np.all(np.asarray(v) > 0) else 0.3))
                          for n, v in self.vals.items()}
         self.twinG0 = graphs.build(self.sc["graph"])
         self.total = float(np.ravel(self.twinG0["J"].logd(**self.vals))[0])
@@ -396,8 +397,15 @@ class ObjRun:
                     self.op_dim_agnostic(op)
             except core.SimCrash:
                 ctx.count("ops_crashed_by_fault")
-            except Exception:
+            except Exception as e_:
                 if not self.fault_fired:
+                    import traceback as _tb
+                    inner = _tb.extract_tb(e_.__traceback__)[-1].filename
+                    if os.sep + "cuqi" + os.sep in inner and k in ("special", "eval", "cond", "siblings", "sampler", "compose"):
+                        # the library itself raised on a valid operation of a valid history, with no fault injected
+                        ctx.violate("C01", "refused_valid", {"engine": "objhist", "stage": "op:" + k, "exc": type(e_).__name__,
+                                                             "graph": self.sc["graph"]["graph"]}, err=str(e_)[:200])
+                        continue
                     raise                          # an operation of the harness failed without any injected fault
                 ctx.count("ops_failed_under_fault")    # e.g. a NaN hyper-parameter rejected by a constructor check
             finally:
@@ -881,7 +889,7 @@ def _short(v):
         return str(val)[:80]
 
 
-TAGS = {"kl_nonlin": ["y.cov"], "lin_step": ["y.cov"], "selfnamed": ["y.cov"], "cov_sdt": ["y.cov"], "cov_sd": ["y.cov"], "direct_param": ["y.cov"], "sigdep_x": ["x.prec", "y.cov"], "reg_d": ["x.prec"], "lin_geom": ["y.cov"], "lognormal_cov_s": ["x.cov"], "lin_sqrtprecF": ["y.cov"], "lin_s": ["y.cov"], "lin_d_s": ["x.prec", "y.cov"], "gmrf_d_s": ["x.prec", "y.prec"], "lmrf_d": ["x.scale"],
+TAGS = {"gamma_mv": [], "kl_nonlin": ["y.cov"], "lin_step": ["y.cov"], "selfnamed": ["y.cov"], "cov_sdt": ["y.cov"], "cov_sd": ["y.cov"], "direct_param": ["y.cov"], "sigdep_x": ["x.prec", "y.cov"], "reg_d": ["x.prec"], "lin_geom": ["y.cov"], "lognormal_cov_s": ["x.cov"], "lin_sqrtprecF": ["y.cov"], "lin_s": ["y.cov"], "lin_d_s": ["x.prec", "y.cov"], "gmrf_d_s": ["x.prec", "y.prec"], "lmrf_d": ["x.scale"],
         "two_lik": ["y2.cov"], "nonlin": ["y.cov"], "xz_s": ["y.cov"], "laplace_b": ["x.scale"],
         "mean_m": ["x.mean", "y.cov"], "cmrf_d": ["x.scale"], "lognormal": ["y.cov"]}
 
@@ -933,7 +941,8 @@ def gen_case(r, tier):
         elif x < 0.985:
             ops.append({"op": "dim_agnostic", "pick": r.randrange(10 ** 6), "fam": r.choice(["normal", "laplace"])})
         else:
-            ops.append({"op": "fault", "tag": r.choice(TAGS[g]), "k": r.randint(0, 6), "kind": r.choice(["raise", "nan"])})
+            if TAGS[g]:
+                ops.append({"op": "fault", "tag": r.choice(TAGS[g]), "k": r.randint(0, 6), "kind": r.choice(["raise", "nan"])})
     return {"scenario": sc, "ops": ops}
 
 
